@@ -5,7 +5,7 @@ SRC = "harness/c11_io_fuzz.cpp"
 DEPS = ["harness/c11_libformats.hpp"]
 # std::istream-level call counters: once a std::istream is in eof/fail state it returns at its sentry
 # without calling the streambuf, so GIL's istream_device spinning at EOF is only countable here
-WRAP = ["-Wl,--wrap=" + s for s in ("_ZNSi4peekEv", "_ZNSi3getEv", "_ZNSi8readsomeEPcl", "_ZNSi4readEPcl",
+WRAP = ["-Wl,--wrap=" + s for s in ("getc", "fgetc", "fread", "fseek", "_ZNSi4peekEv", "_ZNSi3getEv", "_ZNSi8readsomeEPcl", "_ZNSi4readEPcl",
                                     "_ZNSi5seekgElSt12_Ios_Seekdir")]
 
 # FMT -> (name, libs, floor quick, floor thorough)
